@@ -640,6 +640,7 @@ static void x_once(const plan_t *p)
     int k, t, i;
 
     simheap_reset(&hc, p->cfg[CF_JUNK]);
+    simheap_far((int)p->cfg[CF_FAR]);
     faultenum_apply();
     mode_g = p->mode;
     ntab = (int)p->cfg[CF_NT]; if (ntab < 1) ntab = 1; if (ntab > NTAB) ntab = NTAB;
@@ -661,6 +662,11 @@ static void x_once(const plan_t *p)
         memset(&mt[t], 0, sizeof mt[t]);
         mt[t].since_clear = -1;
         mt[t].kind = (int)(p->cfg[CF_SPREAD] >> (4 + t) & 1);
+        if (p->cfg[CF_DECL] && g_hnd == 0) {
+            if (mt[t].kind) { DECLARE_CSTL_HASH(d, struct xelem, hn2); tb[t] = d; }
+            else tb[t] = (struct cstl_hash)CSTL_HASH_INITIALIZER(struct xelem, hn);
+            PROBE("from_initializer_macro");
+        } else
         cstl_hash_init(&tb[t], (mt[t].kind ? offsetof(struct xelem, hn2) : offsetof(struct xelem, hn)) - g_hnd);
     }
 
@@ -1078,6 +1084,30 @@ static void x_once(const plan_t *p)
                 if (r3 >= m1 || r4 >= m2) { g_inlib = 0; VIOLP("C17", "div_range", "cstl_hash_div(%llu, %zu) = %zu", (unsigned long long)(r3 >= m1 ? kk : k3), r3 >= m1 ? m1 : m2, r3 >= m1 ? r3 : r4); }
             }
             g_inlib = 0;
+            {
+                /* adversarial keys for a multiplicative hash, found through the function itself: keep one key whose
+                 * fraction (result / m for an enormous m) lies just above 0 and one just below 1; adding them gives a
+                 * key that lies closer still to one of the two ends (the slow continued-fraction algorithm, on measured
+                 * values). After a few dozen steps the fractions are as extreme as the function's arithmetic can make
+                 * them - the keys at which a rounding step can push the result up to m. Every key on the way is tried
+                 * against a range of table sizes. */
+                static const uint64_t tm[] = { 1, 2, 3, 7, 1000, (1ull << 20) + 7, 1ull << 31, (1ull << 32) + 1, 1ull << 40, 1ull << 53, 1ull << 62, UINT64_MAX };
+                const size_t M = (size_t)1 << 62;
+                uint64_t ku = 1 + (o->a[3] % 5), kd = ku; int step; unsigned q2;
+                long double fu, gd;
+                g_inlib = 1;
+                fu = (long double)cstl_hash_mul((size_t)ku, M) / (long double)M; gd = 1.0L - fu;
+                for (step = 0; step < 160 && fu > 0 && gd > 0; step++) {
+                    for (q2 = 0; q2 < sizeof tm / sizeof tm[0]; q2++) {
+                        size_t r1 = cstl_hash_mul((size_t)ku, (size_t)tm[q2]), r2 = cstl_hash_mul((size_t)kd, (size_t)tm[q2]);
+                        if (r1 >= tm[q2] || r2 >= tm[q2]) { g_inlib = 0; VIOLP("C17", "mul_range", "cstl_hash_mul(%llu, %llu) = %zu (a key whose fraction is extreme, found by descent through the function itself)", (unsigned long long)(r1 >= tm[q2] ? ku : kd), (unsigned long long)tm[q2], r1 >= tm[q2] ? r1 : r2); }
+                    }
+                    if (fu < gd) { kd += ku; gd = 1.0L - (long double)cstl_hash_mul((size_t)kd, M) / (long double)M; }
+                    else { ku += kd; fu = (long double)cstl_hash_mul((size_t)ku, M) / (long double)M; }
+                }
+                g_inlib = 0;
+                PROBE_N("c17_adversarial_descent_steps", (uint64_t)step);
+            }
             PROBE_N("c17_range_scan_keys", (uint64_t)1 << 24);
             { char nm[40]; snprintf(nm, sizeof nm, "c17_scan_slices_%u-%u", (unsigned)(o->a[1] % 256) / 32 * 32, (unsigned)(o->a[1] % 256) / 32 * 32 + 31); probe_dyn(nm); }
             EVT("scan", o->a[1] % 256, m1, m2);
@@ -1132,6 +1162,7 @@ static void huge_chains(const plan_t *p)
     struct xelem *pool = malloc(n * sizeof *pool);
     if (!pool) sim_harness_bug("hash: no memory for huge chains");
     simheap_reset(&hc, p->cfg[CF_JUNK]);
+    simheap_far((int)p->cfg[CF_FAR]);
     sim_watchdog(100);
     mode_g = p->mode; g_hnd = 0;
     g_cur_prop = "C03"; g_cur_ctx = "huge-chains"; g_run.step = 0; g_run.opkind = O_RESIZE; g_run.steps++;
@@ -1191,6 +1222,8 @@ static void gen_keyed(prng_t *r, plan_t *p, uint64_t t, int mode)
 
 static void x_gen(prng_t *r, int mode, plan_t *p)
 {
+    p->cfg[CF_FAR] = FAR_OF_INDEX();      /* element blocks 2^32 or 3 * 2^31 bytes apart in one run in seven each */
+    p->cfg[CF_DECL] = DECL_OF_INDEX();    /* one run in five starts from the initializer macros */
     int longrun = mode != 16 && prng_chance(r, 1, 10), small = !longrun && prng_chance(r, 1, 5);
     int budget = longrun ? 300 + (int)prng_below(r, 1200) : small ? 3 + (int)prng_below(r, 7) : 12 + (int)prng_below(r, 50);
     uint64_t maxb = longrun ? 512 : small ? 4 : 32;
